@@ -19,19 +19,24 @@ THEOREMS = [
 HARNESS = {"src": ["valid.cpp"], "deps": ["common.h"]}
 RULE = ("one case = one byte buffer of 0..512 bytes handed to rtosc_message_length / rtosc_valid_message_p in an "
         "exact-size heap block (for n=0: the end of a block) under ASan, and, when the validator accepts, to every "
-        "reader. Streams: all buffers up to 4 bytes over an 8-symbol alphabet (exhaustive) and all 8-byte-aligned "
-        "tails up to 7 bytes behind the prefix '/a\\0\\0,' over a 6-symbol alphabet (exhaustive in the thorough tier, "
-        "sampled in the quick tier); canonical messages over all 17 tags, unknown tags and brackets; their "
-        "structure-aware mutations (truncation at every offset, blob lengths 0x7fffffff..0xffffffff and off-by-k, "
-        "non-zero padding at every padding byte, terminators removed, tags swapped, bytes flipped/inserted/deleted, "
-        "trailing bytes, path mutations); random bytes over a biased alphabet up to 512; bundles and malformed "
-        "bundles (element sizes that wrap the position). Non-trivial = at least 8 bytes starting with '/' or "
-        "'#bundle'; distinct = distinct buffer")
+        "reader. Streams: all buffers up to 4 bytes over an 8-symbol alphabet (exhaustive: 4681) and all tails of 3 "
+        "and 7 bytes behind the prefix '/a\\0\\0,' over a 6-symbol alphabet (3 bytes exhaustive; 7 bytes exhaustive "
+        "in the thorough tier, sampled in the quick tier; 11 bytes sampled); canonical messages over all 17 tags, "
+        "unknown tags and brackets (every single tag, every pair), every address length 1..40; their structure-aware "
+        "mutations (truncation at every offset, blob lengths 0x7fffffff..0xffffffff and off-by-k around the "
+        "remaining bytes, non-zero padding at every padding byte, NUL first byte of strings, terminators removed, "
+        "tags swapped, bytes flipped/inserted/deleted, trailing bytes, path mutations); random bytes over a biased "
+        "alphabet up to 512; bundles and malformed bundles (element sizes that wrap the position, truncation at "
+        "every offset); a coverage-guided stream (libFuzzer on the working tree's rtosc.c from a seed corpus of "
+        "canonical messages: every input that added coverage, every crash/timeout artifact). Non-trivial = at least "
+        "8 bytes starting with '/' or '#bundle'; distinct = distinct buffer")
 ASSUMPTIONS = ["buffer length n < 2^31 (positions are `unsigned`, sizes `int`); generated buffers have n <= 512",
                "the block handed to the functions has exactly n bytes (len argument = block size)",
                "the readers are only required to be safe on buffers the validator accepted"]
-TRUSTED = ["hand-written models RtoscModel/Osc/Valid.lean (+ Read.lean, Length.lean of C01) of src/rtosc.c",
-           "Python reference decoders (strict and padding-blind) in tools/props/c07.py"]
+TRUSTED = ["hand-written models RtoscModel/Osc/Valid.lean (length, validator) and RtoscModel/Osc/Read.lean (readers, "
+           "shared with C01) of src/rtosc.c",
+           "Python reference decoders (strict and padding-blind) in tools/props/c07.py; libFuzzer/clang-14 only as an "
+           "input generator"]
 LEVEL_TEXT = ("Lean theorems over all byte strings shorter than 2^31: rtosc_message_length and rtosc_valid_message_p "
               "terminate, read no byte outside the block, report 0 or a length <= n; whenever the validator accepts, "
               "argument string, count, type and argument by index and the iterator read only inside the block "
@@ -486,6 +491,71 @@ def prefill_triggers(ops):
         pass
 
 
+def fuzz_stream(rng, tier, stats):
+    """Coverage-guided stream: a libFuzzer target (harness/valid_fuzz.c + the working tree's
+    rtosc.c) is run from a seed corpus of canonical messages; every input it keeps (new coverage)
+    and every crash/timeout artifact becomes an op line.  Input generator only; if clang or the
+    fuzzer runtime is missing the stream is skipped and that is recorded."""
+    import hashlib
+    import shutil
+    import vlib
+    cc = shutil.which("clang-14") or shutil.which("clang")
+    if not cc:
+        stats["fuzzer"] = "skipped: no clang"
+        return
+    srcs = [os.path.join(VERIF, "harness", "valid_fuzz.c"), os.path.join(vlib.REPO, "src", "rtosc.c")]
+    hdr = os.path.join(vlib.REPO, "include", "rtosc", "rtosc.h")
+    h = hashlib.sha256()
+    for f in srcs + [hdr]:
+        try:
+            h.update(open(f, "rb").read())
+        except OSError:
+            h.update(b"?")
+    os.makedirs(vlib.BUILD, exist_ok=True)
+    exe = os.path.join(vlib.BUILD, "fz-C07-" + h.hexdigest()[:16])
+    if not os.path.exists(exe):
+        for f in os.listdir(vlib.BUILD):
+            if f.startswith("fz-C07-"):
+                try:
+                    os.remove(os.path.join(vlib.BUILD, f))
+                except OSError:
+                    pass
+        r = subprocess.run([cc, "-g", "-O1", "-fsanitize=fuzzer,address", "-DNDEBUG", "-I", os.path.join(vlib.REPO, "include")]
+                           + srcs + ["-o", exe + ".tmp%d" % os.getpid()], stdout=subprocess.PIPE, stderr=subprocess.STDOUT, text=True)
+        if r.returncode != 0:
+            stats["fuzzer"] = "skipped: target does not build: " + r.stdout[-200:]
+            return
+        os.rename(exe + ".tmp%d" % os.getpid(), exe)
+    work = os.path.join(vlib.BUILD, "fz-run-%d" % os.getpid())
+    shutil.rmtree(work, ignore_errors=True)
+    os.makedirs(os.path.join(work, "corpus"))
+    os.makedirs(os.path.join(work, "art"))
+    try:
+        for i in range(40):
+            m, _ = make_msg(rng)
+            open(os.path.join(work, "corpus", "seed%02d" % i), "wb").write(m)
+        open(os.path.join(work, "corpus", "seedb"), "wb").write(make_bundle(rng))
+        runs = 150000 if tier == "quick" else 12000000
+        try:
+            subprocess.run([exe, "-seed=%d" % rng.randint(1, 2 ** 31 - 1), "-runs=%d" % runs, "-max_len=512", "-timeout=5",
+                            "-artifact_prefix=" + os.path.join(work, "art") + "/", os.path.join(work, "corpus")],
+                           stdout=subprocess.DEVNULL, stderr=subprocess.DEVNULL, timeout=1500,
+                           env=dict(os.environ, ASAN_OPTIONS="detect_leaks=0"))
+        except subprocess.TimeoutExpired:
+            pass
+        n = 0
+        for d in ("art", "corpus"):
+            for f in sorted(os.listdir(os.path.join(work, d))):
+                if f.startswith("seed"):
+                    continue
+                m = open(os.path.join(work, d, f), "rb").read()
+                n += 1
+                yield m
+        stats["fuzzer"] = "libFuzzer, %d runs, %d inputs kept, %d artifacts" % (runs, n, len(os.listdir(os.path.join(work, "art"))))
+    finally:
+        shutil.rmtree(work, ignore_errors=True)
+
+
 def generate(rng, tier, stats):
     ops = list(_generate(rng, tier, stats))
     prefill_triggers(ops)
@@ -520,14 +590,14 @@ def _generate(rng, tier, stats):
         stats["tails"] += 1
         yield emit("tail", pre + s)
     if quick:
-        for _ in range(6000):
+        for _ in range(20000):
             stats["tails"] += 1
             yield emit("tail", pre + bytes(rng.choice(ALPHA6) for _ in range(rng.choice([7, 7, 11]))))
     else:
         for s in all_strings(ALPHA6, 7):
             stats["tails"] += 1
             yield emit("tail", pre + s)
-        for _ in range(100000):
+        for _ in range(400000):
             stats["tails"] += 1
             yield emit("tail", pre + bytes(rng.choice(ALPHA6) for _ in range(11)))
     # 3. canonical messages and their mutations
@@ -541,7 +611,7 @@ def _generate(rng, tier, stats):
             for k, x in mutate(rng, m, marks, stats):
                 stats["mutations"][k] = stats["mutations"].get(k, 0) + 1
                 yield emit(k, x)
-    for _ in range(700 if quick else 9000):
+    for _ in range(2000 if quick else 30000):
         m, marks = make_msg(rng)
         for t in m[marks[2][1]:marks[2][2]]:
             stats["tag_count"][chr(t)] = stats["tag_count"].get(chr(t), 0) + 1
@@ -556,7 +626,7 @@ def _generate(rng, tier, stats):
         stats["canonical"] += 1
         yield emit("canon", m)
     # 4. random bytes
-    for _ in range(4000 if quick else 300000):
+    for _ in range(20000 if quick else 1500000):
         stats["random"] += 1
         r = rng.random()
         n = rng.randint(0, 24) if r < 0.5 else (rng.randint(0, 128) if r < 0.9 else rng.randint(0, 512))
@@ -565,7 +635,7 @@ def _generate(rng, tier, stats):
             m = b"/" + m[1:]
         yield emit("rand", m)
     # 5. bundles
-    for _ in range(60 if quick else 4000):
+    for _ in range(150 if quick else 10000):
         b = make_bundle(rng)
         for x in bundle_mutations(rng, b):
             stats["bundles"] += 1
@@ -573,6 +643,11 @@ def _generate(rng, tier, stats):
     for v in ADV:
         stats["bundles"] += 1
         yield emit("bundle", BUNDLE + b"\0" * 8 + struct.pack(">I", v))
+    # 6. coverage-guided stream
+    stats["fuzz_inputs"] = 0
+    for m in fuzz_stream(rng, tier, stats):
+        stats["fuzz_inputs"] += 1
+        yield emit("fuzz", m)
 
 
 def nontrivial(op):
